@@ -226,7 +226,10 @@ def verify_label(label):
 
 def get_date_type_respin(compose_id):
     pattern = re.compile(r".*(?P<date>\d{8})(?P<type>\.[a-z]+)?(\.(?P<respin>\d+))?.*")
-    match = pattern.match(compose_id)
+    # Prefer date[.type][.respin] at the very end of the ID, so that a respin
+    # with 8 or more digits is not mistaken for the date.
+    match = re.search(r"(?P<date>\d{8})(?P<type>\.[a-z]+)?(\.(?P<respin>\d+))?$", compose_id)
+    match = match or pattern.match(compose_id)
     if not match:
         return None, None, None
     result = match.groupdict()
